@@ -7,7 +7,7 @@ Read from the ast of sigpyproc/core/kernels.py (fresh on every run):
   * `compute_online_moments(_basic)`     (loop structure: where min/max are initialised and under which test,
                                           the per-sample step, the loads and stores of the record)
 and from sigpyproc/core/stats.py the glue of ChannelStats that the hand model Model/C10_moments.v mirrors
-(zero-initialised record, dispatch of push_data, argument order of __add__, the `m2 != 0` guards).
+(zero-initialised record, dispatch of push_data, argument order of __add__, the `m2 != 0` guards, std = sqrt(var)).
 
 Typing.  Parameters annotated `float` and float fields are Q (float arithmetic is modelled exactly); parameters
 annotated `int`, integer fields and integer literals are Z.  An arithmetic operator whose operands are both
@@ -557,6 +557,9 @@ def check_stats(repo):
         "kurtosis": ["np.divide(self._moments['m4'], np.power(self._moments['m2'], 2.0)", "where=self._moments['m2'] != 0",
                      "out=np.zeros_like(self._moments['m4'])", "- 3.0"],
     }
+    # methods whose whole body (docstring aside) must be exactly these statements: Model/C10_moments.v `is_std` and
+    # Props/C10.v C10_std_any_history speak of "the non-negative root of var" and of nothing else
+    exact = {"std": ["return np.sqrt(self.var)"]}
     errs = []
     for m, lines in need.items():
         if m not in meth:
@@ -566,6 +569,18 @@ def check_stats(repo):
         for ln in lines:
             if ln not in txt:
                 errs.append(f"ChannelStats.{m}: expected `{ln}`")
+    for m, lines in exact.items():
+        if m not in meth:
+            errs.append(f"ChannelStats.{m} not found")
+            continue
+        body = list(meth[m].body)
+        if body and isinstance(body[0], ast.Expr) and isinstance(body[0].value, ast.Constant) and isinstance(body[0].value.value, str):
+            body = body[1:]
+        got = [ast.unparse(b) for b in body]
+        if got != lines:
+            errs.append(f"ChannelStats.{m}: body must be exactly `{'; '.join(lines)}`, found `{'; '.join(got)[:120]}`")
+        if [ast.unparse(d) for d in meth[m].decorator_list] != ["property"]:
+            errs.append(f"ChannelStats.{m}: expected a plain @property")
     return errs
 
 
